@@ -56,9 +56,7 @@ def run(ctx):
             allc.append(c)
             todo.extend(ctx.closures_of(c))
         pred = None
-        for c in allc:
-            if ctx.find_calls(c, r"Iterator>::find"):
-                finds += 1
+        finds = len(ctx.find_calls_deep(f, r"Iterator(>)?::find$"))
         for c in allc:
             rd = field_reads(c)
             if "word" in rd:
